@@ -148,13 +148,13 @@ func assertASTIsVarAssignBlock(ast *syntax.Program) ([]*syntax.VarAssignExpr, bo
 // 令销量 = 300
 // 输出客单价 * 销量  ->  8400
 func ExecVarInputText(source string) (r.ElementMap, error) {
-	vm := r.InitVM(globalValues)
+	vm := newVarInputVM()
 
 	return evalVarAssignBlockText(vm, source)
 }
 
 func ExecExpressionInputText(exprStrMap map[string]string) (r.ElementMap, error) {
-	vm := r.InitVM(globalValues)
+	vm := newVarInputVM()
 	result := make(map[string]r.Element)
 	for k, v := range exprStrMap {
 		evalResult, err := evalExpressionText(vm, v)
@@ -165,4 +165,13 @@ func ExecExpressionInputText(exprStrMap map[string]string) (r.ElementMap, error)
 	}
 
 	return result, nil
+}
+
+// newVarInputVM - expressions need a module scope and a call frame to look names up
+// (an undefined name or 其X must yield an error, not a nil dereference)
+func newVarInputVM() *r.VM {
+	vm := r.InitVM(globalValues)
+	module := vm.AllocateModule(MODULE_NAME_MAIN, nil)
+	vm.PushCallFrame(r.NewScriptCallFrame(module))
+	return vm
 }
